@@ -14,7 +14,8 @@ RULE = ("seeded blackbox-free circuits x node n (input / internal / output / fun
 PROBES = ["sp=1", "sp=2", "sp=3", "sp=4", "sp=5", "sp=7", "sp=8", "sensitivity_0", "n_is_input", "n_is_output",
           "unsat_steps>=2", "sensitize_none", "sensitize_witness", "endpoints_subset", "influence", "sensitivity", "influence_list_form", "same_endpoints_object_for_all_calls"]
 ASSUMPTIONS = ["<= 11 startpoints in the cone of n for the transforms and sensitivity(), <= 6 for influence / avg_sensitivity", "exact mode only (approx=False); the supergates=True variant of "
-               "influence is not judged"]
+               "influence is not judged",
+               "startpoints named like generated nodes (sat, c0_/c1_/dif_<n>, orig_, inv_, pc_, sen_out_, dif_out_) are avoided: the transforms refuse them with ValueError"]
 
 
 def gen(rng, tier):
